@@ -1,9 +1,9 @@
 CONSTANTS
-  MaxFrames = 2
+  MaxFrames = 1
   Lens = {3, 5}
   H = 3
-  Preface = 0
-  Defects = {"DrainHeader"}
+  Preface = 4
+  Defects = {"PrefaceFlagEarly"}
 SPECIFICATION Spec
 INVARIANTS InOrderOnce NoEarly Prompt Consumed PrefaceOnce NoError SameForEveryCut
 CHECK_DEADLOCK FALSE
